@@ -19,6 +19,8 @@ BOUNDS = {
                   real_class_tier="n in {3,4}, the five shipped lifetime classes with symbolic scalar parameters (scipy kernels as uninterpreted functions), symbolic grid"),
     "thorough": dict(symbolic_tier="n in 3..8, extra dims (), (2,), (2,2) (n>=6: up to (2,); n=8: none)", real_class_tier="n in 3..6, inflow_at start/middle/end and 3-point quadrature"),
 }
+# dtype shadow: every shadowed configuration is run once more on integer-dtype arrays (differential concrete run)
+DTYPE_SHADOW = lambda cfg: cfg["h"] == "conserve"
 OPTS = {"quick": dict(shadow_every=4, timeout_ms=20000), "thorough": dict(shadow_every=6, timeout_ms=120000)}
 KINDS = ["flow", "idsm", "sdsm_manual", "sdsm_lapack"]
 
